@@ -344,6 +344,46 @@ def rule_r5(ctx, rep):
     rep.floor("loops in prune", 2)
 
 
+def rule_r6(ctx, rep):
+    """strict mode judges a child after its own subtree has been pruned: every single-node validation of a loop child is
+    dominated by the recursive prune of that child (pruning below a node can make it non-compliant, e.g. a required child goes)"""
+    prog = ctx.prog
+    fi = prog.func(PRUNE)
+    w = ctx.world
+    ft = w.types(fi)
+    nparam = fi.params[0]
+    rec, val = [], []
+    for n in ast.walk(fi.node):
+        if isinstance(n, ast.Call):
+            for tg in w.resolve_call(ft, n):
+                if tg.func is None:
+                    continue
+                am = w.arg_map(tg, n)
+                first = am.get(tg.func.params[0]) if tg.func.params else None
+                if not isinstance(first, ast.Name) or first.id == nparam:
+                    continue
+                if tg.func.qname == fi.qname:
+                    rec.append((n, first.id))
+                elif tg.func.qname == "metapype.eml.validate.node":
+                    val.append((n, first.id))
+    rep.count("strict validations of a loop child", len(val))
+    for (c, var) in val:
+        md = MarkDomain()
+        for (r, v) in rec:
+            if v == var:
+                md.mark(r, "PRUNED")
+        md.probe(c)
+        run_marks(ctx, fi, md)
+        must = must_at(md, c)
+        ok = must is None or "PRUNED" in must
+        rep.oblige(("R6", norm(c)), ok)
+        if not ok:
+            rep.add("R6", fi.qname, c, f"`{var}` is validated on its own before prune has descended into it on some path: what is pruned below "
+                    f"`{var}` afterwards can make it non-compliant, so strict mode leaves nodes that fail single-node validation "
+                    f"(and a second prune removes more)", fi.loc(c))
+    rep.floor("strict validations of a loop child", 1)
+
+
 def run(ctx, rep):
     rep.explanation = (
         "escape analysis of validate.prune with conditional summaries (remove_child raises unless the child is known to be listed: "
@@ -351,11 +391,11 @@ def run(ctx, rep):
         "the unknown-node one passes the disallowed-children sweep on all its paths; each result record is paired with the removal "
         "and the unregistration of the same node and vice versa; prune's effect summary is limited to child removal and "
         "unregistration; membership tests against local lists compare like with like")
-    rep.rules_run = ["R1", "R2", "R3", "R4", "R5"]
+    rep.rules_run = ["R1", "R2", "R3", "R4", "R5", "R6"]
     rep.assumptions += ["NOT decided: that strict mode leaves only valid nodes and that a second prune removes nothing (follow from C04/C01 semantics)",
                         "distinct variables iterating a duplicate-free child list denote distinct nodes",
                         "D-TREE / D-REG provisos as in C04"]
     only = getattr(rep, "only", None)
-    for name, fn in (("R1", rule_r1), ("R2", rule_r2), ("R3", rule_r3), ("R4", rule_r4), ("R5", rule_r5)):
+    for name, fn in (("R1", rule_r1), ("R2", rule_r2), ("R3", rule_r3), ("R4", rule_r4), ("R5", rule_r5), ("R6", rule_r6)):
         if only in (None, name):
             fn(ctx, rep)
